@@ -21,6 +21,7 @@ THEOREMS = [
     "Mesa.Legacy.C08_closest_minimises_distance",
     "Mesa.Legacy.C08_distance_is_torus_metric",
     "Mesa.Legacy.C08_remove_takes_out_or_changes_nothing",
+    "Mesa.Legacy.C08_remove_foreign_agent",
     "Mesa.Legacy.C08_place_appends",
     "Mesa.Legacy.C08_move_contents",
     "Mesa.Legacy.C08_swap_exchanges",
@@ -92,7 +93,7 @@ def generate_rejecting(rng, tier, count):
 
 
 def builtin_corpus():
-    return L.exhaustive_index_c08()
+    return L.exhaustive_index_c08() + L.foreign_agent_scenarios()
 
 
 run_impl = L.run_impl
